@@ -920,6 +920,9 @@ enum Verdict {
     Refused(bool),
     /// `UnknownIdentifier`: no scope the lookup reaches knows the name (sequences only)
     NoName,
+    /// the name denotes a type where the call stands (a scope without a function of the name declares a struct / enum /
+    /// typedef of it): the call is refused as not being a call of a function (sequences only)
+    IsType,
     /// the call is refused, and the type checker does not say how: a call in a method body of a struct template is reported
     /// at the use of the template as "identifier .. is not expected to be a type" (sequences only)
     Rejected,
@@ -936,6 +939,7 @@ fn show_verdict(v: &Verdict) -> String {
         Verdict::Refused(true) => "lvreq".into(),
         Verdict::Refused(false) => "mutreq".into(),
         Verdict::NoName => "noname".into(),
+        Verdict::IsType => "type".into(),
         Verdict::Rejected => "rej".into(),
         Verdict::Panic(_) => "panic".into(),
         Verdict::Other(e) => format!("error:{}", e),
@@ -953,6 +957,8 @@ enum Checked {
     PlaceRefused(bool),
     /// `UnknownIdentifier(_)`
     Unknown(String),
+    /// `ConstructorWrongArgumentCount` / `WrongTypeInConstructor`: the callee was taken for a type
+    Constructor,
     Other(String),
 }
 
@@ -984,6 +990,9 @@ fn type_check_src(src: &str) -> Checked {
                 rssl::typer::TyperError::LvalueRequired(_) => Checked::PlaceRefused(true),
                 rssl::typer::TyperError::MutableRequired(_) => Checked::PlaceRefused(false),
                 rssl::typer::TyperError::UnknownIdentifier(_) => Checked::Unknown(format!("type:{}", first)),
+                rssl::typer::TyperError::ConstructorWrongArgumentCount(_) | rssl::typer::TyperError::WrongTypeInConstructor(_) => {
+                    Checked::Constructor
+                }
                 _ => Checked::Other(format!("type:{}", first)),
             }
         }
@@ -1190,6 +1199,7 @@ fn run_program(cands: &[Cand], args: &[ETy], opts: &Opts) -> Option<Verdict> {
         }
         Ok(Checked::PlaceRefused(lv)) => Verdict::Refused(lv),
         Ok(Checked::Unknown(e)) | Ok(Checked::Other(e)) => Verdict::Other(e),
+        Ok(Checked::Constructor) => Verdict::Other("the callee was taken for a type".into()),
     };
     Some(v)
 }
@@ -1290,6 +1300,11 @@ struct Judged {
     out_converted: Vec<u32>,
     /// viable candidates with an `out` / `inout` parameter whose argument has a const type
     out_const: Vec<u32>,
+    /// viable candidates that meet a 1-vector (in an argument they receive or in the parameter that receives it): outside
+    /// the property's quantifier ({scalar, 2,3,4-vectors}); the oracle's conversion-quality table says nothing about
+    /// `int1 -> half1` against `int1 -> double` (the code ranks the former Conversion/Expand, the latter
+    /// Conversion/Exact: reading 14 in notes/C16.md), so such a candidate takes no part in the domination judgement
+    off_grid: Vec<u32>,
 }
 
 fn has_vec1(l: Layer) -> bool {
@@ -1373,7 +1388,7 @@ fn bind_templates(c: &Cand, args: &[ETy], explicit: &[Option<Ty>]) -> Option<Vec
 }
 
 fn judge_set(real: &mut Real, cands: &[Cand], args: &[ETy], explicit: &[Option<Ty>]) -> Judged {
-    let mut j = Judged { viable: Vec::new(), exact: Vec::new(), panic: None, out_converted: Vec::new(), out_const: Vec::new() };
+    let mut j = Judged { viable: Vec::new(), exact: Vec::new(), panic: None, out_converted: Vec::new(), out_const: Vec::new(), off_grid: Vec::new() };
     // "a candidate whose parameter types equal the argument types exactly" is judged wherever type equality is what
     // the words say; with 1-vectors (`int` -> `int1` is as good as `int` -> `int`, see notes/C16.md) it is not.
     let judge_exact = !cands.iter().any(|c| c.params.iter().any(|p| has_vec1(p.ty.layer))) && !args.iter().any(|a| has_vec1(a.ty.layer));
@@ -1417,6 +1432,9 @@ fn judge_set(real: &mut Real, cands: &[Cand], args: &[ETy], explicit: &[Option<T
         if params.iter().zip(args).any(|(p, a)| p.io != Io::In && a.ty.mods.0 & 1 != 0) {
             j.out_const.push(c.id);
         }
+        if params.iter().zip(args).any(|(p, a)| has_vec1(p.ty.layer) || has_vec1(a.ty.layer)) {
+            j.off_grid.push(c.id);
+        }
         j.viable.push((c.id, ranks));
     }
     j
@@ -1425,8 +1443,11 @@ fn judge_set(real: &mut Real, cands: &[Cand], args: &[ETy], explicit: &[Option<T
 /// a viable candidate that converts no argument worse than `id` and at least one better (the oracle's own table)
 fn dominated_by(j: &Judged, id: u32) -> Option<u32> {
     let (_, mine) = j.viable.iter().find(|(i, _)| *i == id)?;
+    if j.off_grid.contains(&id) {
+        return None;
+    }
     for (d, theirs) in &j.viable {
-        if *d == id {
+        if *d == id || j.off_grid.contains(d) {
             continue;
         }
         let no_worse = theirs.iter().zip(mine).all(|(t, m)| t <= m);
@@ -1672,6 +1693,7 @@ impl Runner {
             Verdict::Refused(true) => "verdict:refused-lvalue-required",
             Verdict::Refused(false) => "verdict:refused-non-const-required",
             Verdict::NoName => "verdict:unknown-name",
+            Verdict::IsType => "verdict:name-denotes-a-type",
             Verdict::Rejected => "verdict:refused-without-a-reason",
             Verdict::Panic(_) => "verdict:panic",
             Verdict::Other(_) => "verdict:other-error",
@@ -1827,6 +1849,9 @@ enum Item {
     /// number, lookup mode, arguments of the call in the body, true = the body is a method of a struct template
     Helper(u32, u8, Vec<ETy>, bool),
     Trigger(u32, bool),
+    /// a symbol that is not a function and carries the name of the overload set: scope, kind (`s` struct, `e` enum,
+    /// `t` typedef, `b` cbuffer, `n` namespace)
+    Other(u8, u8),
 }
 
 #[derive(Clone, PartialEq, Eq, Debug)]
@@ -1845,6 +1870,7 @@ fn show_item(i: &Item) -> String {
         Item::Site(m, a, t) => format!("c~{}~{}~{}", m, show_args(a), t.iter().map(show_targ).collect::<Vec<_>>().join("+")),
         Item::Helper(j, m, a, st) => format!("{}~{}~{}~{}", if *st { "s" } else { "h" }, j, m, show_args(a)),
         Item::Trigger(j, z) => format!("t~{}~{}", j, if *z { "f" } else { "i" }),
+        Item::Other(sc, k) => format!("o~{}~{}", sc, *k as char),
     }
 }
 
@@ -1878,6 +1904,9 @@ fn parse_item(s: &str) -> Option<Item> {
         ["s", j, m, a] => Some(Item::Helper(j.parse().ok()?, m.parse().ok().filter(|x| *x <= 3)?, parse_args(a)?, true)),
         ["t", j, "i"] => Some(Item::Trigger(j.parse().ok()?, false)),
         ["t", j, "f"] => Some(Item::Trigger(j.parse().ok()?, true)),
+        ["o", sc, k] if k.len() == 1 && b"setbn".contains(&k.as_bytes()[0]) => {
+            Some(Item::Other(sc.parse().ok().filter(|x| *x <= 1)?, k.as_bytes()[0]))
+        }
         _ => None,
     }
 }
@@ -1908,6 +1937,8 @@ fn seq_well_formed(items: &[Item], path: &SeqPath) -> bool {
     let mut defined: Vec<u32> = Vec::new();
     let mut helpers: Vec<u32> = Vec::new();
     let mut users_seen = false;
+    let mut others: Vec<(u8, u8)> = Vec::new();
+    let mut scoped_decls: Vec<u8> = Vec::new();
     for it in items {
         match it {
             Item::Decl(sc, c) => {
@@ -1915,6 +1946,7 @@ fn seq_well_formed(items: &[Item], path: &SeqPath) -> bool {
                     return false;
                 }
                 ids.push(c.id);
+                scoped_decls.push(*sc);
                 if is_user(c) {
                     users_seen = true;
                 } else if users_seen || !matches!(path, SeqPath::Intrinsic(_)) {
@@ -1960,15 +1992,49 @@ fn seq_well_formed(items: &[Item], path: &SeqPath) -> bool {
                     return false;
                 }
             }
+            Item::Other(sc, k) => {
+                // what the type checker accepts next to functions of the name: one type (struct / enum / typedef), one
+                // cbuffer and one namespace per scope; a namespace has to come first and excludes an enum (both are entered by name)
+                match path {
+                    SeqPath::Free => {}
+                    SeqPath::Intrinsic(_) if *sc == 0 && *k != b'n' => {}
+                    _ => return false,
+                }
+                let is_type = |x: u8| matches!(x, b's' | b'e' | b't');
+                if others.iter().any(|(s2, k2)| s2 == sc && (k2 == k || (is_type(*k2) && is_type(*k)))) {
+                    return false;
+                }
+                if *k == b'e' && others.contains(&(*sc, b'n')) {
+                    return false;
+                }
+                if *k == b'n' && (scoped_decls.contains(sc) || others.iter().any(|(s2, k2)| s2 == sc && is_type(*k2))) {
+                    return false;
+                }
+                others.push((*sc, *k));
+            }
         }
     }
     true
 }
 
-/// The candidates a call at place `pos` with lookup `mode` can see, in the property's words: declared above the call
-/// in the scope the lookup reaches - the innermost scope that knows the name for an unqualified call, the named scope
-/// for a qualified one; every method of the struct.  None = no such scope knows the name.
-fn visible_at(items: &[Item], pos: usize, mode: u8, path: &SeqPath) -> Option<Vec<Cand>> {
+/// what a name denotes at a call
+#[derive(Clone, PartialEq, Eq, Debug)]
+enum Vis {
+    /// the visible candidates
+    Fns(Vec<Cand>),
+    /// no function of the name is visible in the innermost scope that knows the name, a type is: the name denotes the type
+    Type,
+    /// no scope the lookup reaches knows the name
+    Nothing,
+}
+
+/// The candidates a call at place `pos` with lookup `mode` can see, in the property's words: **every function of the name**
+/// declared above the call in the scope the lookup reaches - the innermost scope that knows the name for an unqualified
+/// call, the named scope for a qualified one; every method of the struct.  Symbols of the same name that are not
+/// functions (a struct, an enum, a typedef, a cbuffer, a namespace) are not candidates and, in the scope of the functions, take
+/// nothing away from them wherever they stand; a scope without a function of the name knows the name only if it
+/// declares a type of that name (a cbuffer block and a namespace are not values and not types: the lookup goes on outwards).
+fn visible_at(items: &[Item], pos: usize, mode: u8, path: &SeqPath) -> Vis {
     let upto = if matches!(path, SeqPath::Method | SeqPath::TStruct) { items.len() } else { pos };
     let of = |scope: u8| -> Vec<Cand> {
         items[..upto]
@@ -1979,15 +2045,26 @@ fn visible_at(items: &[Item], pos: usize, mode: u8, path: &SeqPath) -> Option<Ve
             })
             .collect()
     };
+    let has_type = |scope: u8| items[..upto].iter().any(|i| matches!(i, Item::Other(s, b's' | b'e' | b't') if *s == scope));
     let (root, ns) = (of(0), of(1));
-    let v = match (path, mode) {
-        (SeqPath::Free, 1) => ns,
-        (SeqPath::Free, 2) if !ns.is_empty() => ns,
+    // the chain of scopes the lookup walks, innermost first
+    let chain: Vec<u8> = match (path, mode) {
+        (SeqPath::Free, 1) => vec![1],
+        (SeqPath::Free, 2) => vec![1, 0],
         // the methods of the second struct
-        (SeqPath::Method, 2 | 3) => ns,
-        _ => root,
+        (SeqPath::Method, 2 | 3) => vec![1],
+        _ => vec![0],
     };
-    if v.is_empty() { None } else { Some(v) }
+    for sc in chain {
+        let v = if sc == 1 { &ns } else { &root };
+        if !v.is_empty() {
+            return Vis::Fns(v.clone());
+        }
+        if has_type(sc) {
+            return Vis::Type;
+        }
+    }
+    Vis::Nothing
 }
 
 /// globals, locals and expressions for the arguments of site `tag` (locals / function results / literals)
@@ -2151,6 +2228,17 @@ fn seq_program(items: &[Item], include: &[bool], path: &SeqPath) -> Option<Strin
                 };
                 s.push_str(&wrap(*mode >= 2, &text));
             }
+            Item::Other(sc, kind) => {
+                // a symbol that is not a function, named like the overload set
+                let text = match kind {
+                    b's' => format!("struct {} {{ int q; }};\n", fname),
+                    b'e' => format!("enum {} {{ {}_EV{} }};\n", fname, fname, sc),
+                    b't' => format!("typedef int {};\n", fname),
+                    b'b' => format!("cbuffer {} {{ int {}_cbm{}; }}\n", fname, fname, sc),
+                    _ => format!("namespace {} {{ struct {}_In{} {{ int q; }}; }}\n", fname, fname, sc),
+                };
+                s.push_str(&wrap(*sc == 1, &text));
+            }
             Item::Trigger(j, z) => {
                 if !include[k] {
                     continue;
@@ -2200,6 +2288,14 @@ fn call_in_function(module: &ir::Module, f: ir::FunctionId, name: &str) -> Optio
     call_in_block(&imp.scope_block, module, name)
 }
 
+/// is a statement of the function's body a constructor expression
+fn constructor_statement(module: &ir::Module, f: ir::FunctionId) -> bool {
+    match module.function_registry.get_function_implementation(f).as_ref() {
+        Some(imp) => imp.scope_block.0.iter().any(|st| matches!(&st.kind, ir::StatementKind::Expression(ir::Expression::Constructor(..)))),
+        None => false,
+    }
+}
+
 /// the verdicts of the written c / t items of an accepted program
 fn seq_read_accepted(m: &mut ir::Module, items: &[Item], include: &[bool], path: &SeqPath) -> Vec<(usize, SiteObs)> {
     let fname = seq_fname(path);
@@ -2212,6 +2308,8 @@ fn seq_read_accepted(m: &mut ir::Module, items: &[Item], include: &[bool], path:
     let selected = |m: &ir::Module, holder: ir::FunctionId| -> SiteObs {
         match call_in_function(m, holder, &fname).and_then(|f| cand_of(m, f, &builtins)) {
             Some((id, t)) => SiteObs::V(Verdict::Sel(id, if is_template(id) { t } else { None })),
+            // `f(args);` became a constructor expression: the name was taken for a type
+            None if constructor_statement(m, holder) => SiteObs::V(Verdict::IsType),
             None => SiteObs::V(Verdict::Other("accepted, but the call is not in the module".into())),
         }
     };
@@ -2280,6 +2378,9 @@ fn seq_read_rejected(c: Checked, path: &SeqPath) -> Verdict {
         }
         Checked::PlaceRefused(lv) => Verdict::Refused(lv),
         Checked::Unknown(_) => Verdict::NoName,
+        Checked::Constructor => Verdict::IsType,
+        // `f<..>(..)` where f denotes a type that takes no template arguments (`ExpectedExpressionReceivedType`)
+        Checked::Other(e) if e.contains(&format!("identifier '{}' is not expected to be a type", fname)) => Verdict::IsType,
         Checked::Other(e) => Verdict::Other(e),
     }
 }
@@ -2290,6 +2391,9 @@ fn run_seq(items: &[Item], path: &SeqPath, compiles: &mut u64) -> Option<Result<
     let is_site = |i: &Item| matches!(i, Item::Site(..) | Item::Trigger(..));
     let all: Vec<bool> = items.iter().map(is_site).collect();
     let src = seq_program(items, &all, path)?;
+    if std::env::var("C16_DUMP").is_ok() {
+        eprintln!("{}", src);
+    }
     *compiles += 1;
     match guard(|| type_check_src(&src)) {
         Ok(Checked::Ok(mut m)) => return Some(Ok(seq_read_accepted(&mut m, items, &all, path))),
@@ -2415,7 +2519,8 @@ impl Runner {
                     }) else {
                         continue;
                     };
-                    if matches!(o, SiteObs::V(Verdict::Sel(..))) {
+                    // (a body whose call became a constructor expression may be accepted as well: whether it is says nothing about overloads)
+                    if matches!(o, SiteObs::V(Verdict::Sel(..) | Verdict::IsType)) {
                         built.push((*j, *z));
                     }
                     (m, a, Vec::new())
@@ -2442,6 +2547,7 @@ impl Runner {
                 Verdict::Unmatched => "seq-site:unmatched",
                 Verdict::Refused(_) => "seq-site:refused-output",
                 Verdict::NoName => "seq-site:unknown-name",
+                Verdict::IsType => "seq-site:name-denotes-a-type",
                 Verdict::Rejected => "seq-site:refused-in-a-struct-template",
                 Verdict::Panic(_) => "seq-site:panic",
                 Verdict::Other(_) => "seq-site:other-error",
@@ -2450,13 +2556,31 @@ impl Runner {
             if verdict.is_err() {
                 continue;
             }
-            let visible = visible_at(items, *k, mode, path);
-            let Some(visible) = visible else {
-                if *v != Verdict::NoName && *v != Verdict::Rejected {
-                    verdict = Err(format!("site {}: no candidate is visible at the call, but the verdict is `{}`", k, show_verdict(v)));
+            let visible = match visible_at(items, *k, mode, path) {
+                Vis::Fns(v) => v,
+                Vis::Nothing => {
+                    if *v != Verdict::NoName && *v != Verdict::Rejected {
+                        verdict = Err(format!("site {}: no candidate is visible at the call, but the verdict is `{}`", k, show_verdict(v)));
+                    }
+                    continue;
                 }
-                continue;
+                Vis::Type => {
+                    // the innermost scope that knows the name knows it as a type only: no candidate is visible, the call
+                    // is not a call of a function
+                    if *v != Verdict::IsType && *v != Verdict::Rejected {
+                        verdict = Err(format!(
+                            "site {}: the name denotes a type in the innermost scope that knows it (no function of the name is visible there), but the verdict is `{}`",
+                            k,
+                            show_verdict(v)
+                        ));
+                    }
+                    continue;
+                }
             };
+            if *v == Verdict::IsType {
+                verdict = Err(format!("site {}: {} candidate(s) are visible at the call, but the name is taken for a type", k, visible.len()));
+                continue;
+            }
             self.hist.add(&format!("seq-site:visible{}", visible.len().min(9)));
             let set_key = {
                 let mut s: Vec<Cand> = visible.clone();
@@ -2528,6 +2652,11 @@ impl Runner {
                 Item::Helper(_, _, _, false) => "seq-item:function-template-with-a-call-in-its-body",
                 Item::Helper(..) => "seq-item:struct-template-with-a-call-in-a-method-body",
                 Item::Trigger(..) => "seq-item:call-that-instantiates-the-helper",
+                Item::Other(_, b's') => "seq-item:struct-of-the-same-name",
+                Item::Other(_, b'e') => "seq-item:enum-of-the-same-name",
+                Item::Other(_, b't') => "seq-item:typedef-of-the-same-name",
+                Item::Other(_, b'b') => "seq-item:cbuffer-of-the-same-name",
+                Item::Other(..) => "seq-item:namespace-of-the-same-name",
             });
         }
     }
@@ -3319,11 +3448,22 @@ pub fn run(args: &Args, out: &mut Out) {
             for t in &tuples {
                 items.push(Item::Site(0, t.clone(), Vec::new()));
             }
-            for u in &users {
+            // a struct / enum / typedef / cbuffer with the intrinsic's name, before, between or after the user's overloads
+            let other_at = if rng.chance(1, 2) { Some(rng.below(users.len() as u64 + 1) as usize) } else { None };
+            let other_kind = *rng.pick(b"setb");
+            for (ui, u) in users.iter().enumerate() {
+                if other_at == Some(ui) {
+                    items.push(Item::Other(0, other_kind));
+                    items.push(Item::Site(0, tuples[0].clone(), Vec::new()));
+                }
                 items.push(Item::Decl(0, u.clone()));
                 for t in &tuples {
                     items.push(Item::Site(0, t.clone(), Vec::new()));
                 }
+            }
+            if other_at == Some(users.len()) {
+                items.push(Item::Other(0, other_kind));
+                items.push(Item::Site(0, tuples[0].clone(), Vec::new()));
             }
             r.seq_case(&items, &SeqPath::Intrinsic(name), out);
             continue;
@@ -3440,13 +3580,105 @@ pub fn run(args: &Args, out: &mut Out) {
             r.seq_case(&rev, &path, out);
         }
     }
+
+    // (11) symbols that are not functions but carry the name of the overload set (struct, enum, typedef, cbuffer, namespace),
+    //      at every place of the declaration sequence - before all overloads, between any two, after all - in the root scope
+    //      and in the namespace, the same calls after every item: a candidate is visible whatever else of that name
+    //      stands between it and the call
+    let nsym = if args.n.is_some() { n / 8 } else if args.thorough() { 3000 } else { 330 };
+    for i in 0..nsym {
+        let (mut cands, centre) = match i % 6 {
+            3 => random_template_set(&mut rng, &mut hist),
+            5 => output_set(&mut rng, &mut hist),
+            _ => random_set(&mut rng, &mut hist),
+        };
+        for k in (1..cands.len()).rev() {
+            let j = rng.below(k as u64 + 1) as usize;
+            cands.swap(k, j);
+        }
+        let mut tuples: Vec<Vec<ETy>> = vec![centre.iter().map(|c| ETy { lvalue: true, ty: *c }).collect()];
+        for _ in 0..rng.range(1, 2) {
+            tuples.push(centre.iter().map(|c| random_arg(&mut rng, *c)).collect());
+        }
+        tuples.dedup();
+        // 0: everything at the root, 1: everything in N, 2 / 3: mixed
+        let layout = (i / 2) % 4;
+        let scopes: Vec<u8> = cands.iter().map(|_| match layout { 0 => 0, 1 => 1, _ => rng.below(2) as u8 }).collect();
+        let nslots = cands.len() + 1;
+        // the symbols: per scope at most one type, one cbuffer, one namespace (first, and never next to an enum)
+        let mut others: Vec<(usize, u8, u8)> = Vec::new(); // slot, scope, kind
+        for sc in 0..2u8 {
+            if (layout == 0 && sc == 1) || (layout == 1 && sc == 0 && rng.chance(1, 2)) {
+                continue;
+            }
+            let ty = *rng.pick(b"-sset");
+            if ty != b'-' {
+                others.push((rng.below(nslots as u64) as usize, sc, ty));
+            }
+            if rng.chance(1, 3) {
+                others.push((rng.below(nslots as u64) as usize, sc, b'b'));
+            }
+            if ty != b'e' && rng.chance(1, 5) {
+                others.push((0, sc, b'n'));
+            }
+        }
+        if others.iter().all(|o| o.2 == b'n') {
+            let sc = if layout == 1 { 1 } else { 0 };
+            others.retain(|o| o.1 != sc || o.2 == b'n');
+            others.push((0, sc, *rng.pick(b"stb")));
+        }
+        // every place gets its turn: the first symbol that is not a namespace stands at place i mod (number of places)
+        if let Some(o) = others.iter_mut().find(|o| o.2 != b'n') {
+            o.0 = (i as usize) % nslots;
+        }
+        // namespaces first within their slot
+        others.sort_by_key(|o| (o.0, o.2 != b'n'));
+        let mut items: Vec<Item> = Vec::new();
+        let sites = |items: &mut Vec<Item>, rng: &mut Rng| {
+            for t in &tuples {
+                let mode = if layout == 0 { if rng.chance(1, 6) { 3 } else { 0 } } else { rng.below(4) as u8 };
+                items.push(Item::Site(mode, t.clone(), Vec::new()));
+            }
+        };
+        for slot in 0..nslots {
+            for o in others.iter().filter(|o| o.0 == slot) {
+                items.push(Item::Other(o.1, o.2));
+                if o.2 != b'n' || rng.chance(1, 2) {
+                    sites(&mut items, &mut rng);
+                }
+            }
+            if slot < cands.len() {
+                items.push(Item::Decl(scopes[slot], cands[slot].clone()));
+                sites(&mut items, &mut rng);
+            }
+        }
+        // the definition of a function declared before some of the symbols (the redefinition check of `parse_function`
+        // looks the name up through the same loop), then the same calls again
+        if i % 3 == 1 {
+            if let Some(c) = cands.iter().find(|c| c.tkinds.is_empty()) {
+                items.push(Item::Define(c.id));
+                sites(&mut items, &mut rng);
+            }
+        }
+        r.seq_case(&items, &SeqPath::Free, out);
+        // the same unit with the overloads the other way round
+        if i % 2 == 0 {
+            let decls: Vec<usize> = items.iter().enumerate().filter(|(_, x)| matches!(x, Item::Decl(..))).map(|(k, _)| k).collect();
+            let mut rev = items.clone();
+            for (a, b) in decls.iter().zip(decls.iter().rev()) {
+                rev[*a] = items[*b].clone();
+            }
+            rev.retain(|x| !matches!(x, Item::Define(_)));
+            r.seq_case(&rev, &SeqPath::Free, out);
+        }
+    }
     for (k, v) in &hist.0 {
         for _ in 0..*v {
             r.hist.add(k);
         }
     }
     out.stat(&format!(
-        "{{\"conv_universe\":{},\"conv_pairs\":{},\"single_param_pairs\":{},\"random_sets\":{},\"tuples_per_set\":{},\"path_sets\":{},\"template_sets\":{},\"intrinsic_cases\":{},\"output_sets\":{},\"sequences\":{},\"compiles\":{},\"hist\":{}}}",
+        "{{\"conv_universe\":{},\"conv_pairs\":{},\"single_param_pairs\":{},\"random_sets\":{},\"tuples_per_set\":{},\"path_sets\":{},\"template_sets\":{},\"intrinsic_cases\":{},\"output_sets\":{},\"sequences\":{},\"same_name_symbol_units\":{},\"compiles\":{},\"hist\":{}}}",
         uni.len(),
         uni.len() * uni.len(),
         pairs,
@@ -3457,6 +3689,7 @@ pub fn run(args: &Args, out: &mut Out) {
         ni,
         no,
         nq,
+        nsym,
         r.compiles,
         r.hist.json()
     ));
